@@ -25,6 +25,8 @@ Template directives (lines starting with `//@`):
                                bindings differ only by name is alpha-renamed back to them (rule R7b)
   //@ subst "<old>" => "<new>" [count=<k>|count=*]   literal replacement in the body, site count checked (logged as R-local);
                                count=* replaces every occurrence, none required (for std calls whose vstd spec is too weak)
+  //@ subst-re "<regex>" => "<replacement with \1..>" [count=..]   same, the site given by a regular expression (a blank matches any
+                               whitespace): for rewrites that must not depend on the names of locals
   //@ end
 
   //@ item <file> :: <container> :: ... :: <kw> <name> [derive=<list>] [vis=pub]
@@ -344,7 +346,8 @@ def rule_r9_iter_first(body, log, where):
     R9_DIRECTIONS.clear()
     """R9: `X.iter()[.rev()] (.map(F) | .skip_while(P) | .filter(P))* .next()`  ->  an index loop over X (backwards with
        `.rev()`) that applies the stages to each element in order and stops at the first element that passes all of them
-       (std: lazy adapters; `skip_while(P)` followed by `next()` yields the first element for which P is false, `filter(P)` the
+       (std: lazy adapters; `find_map(F)` as the last stage is `map(F)` followed by the first result that is not `None`;
+       `skip_while(P)` followed by `next()` yields the first element for which P is false, `filter(P)` the
        first for which it is true; `map(F)` applies F). Closures become `{ let <param> = <element>; <body> }`, a path `F`
        becomes `F(<element>)` (`P(&<element>)` for predicates). Opt-in (`rules=R9`): Verus has no iterator adapters.
        In the injected contract lines of the function the placeholder `$REV9_<n>` stands for the direction of the n-th scan
@@ -378,6 +381,11 @@ def rule_r9_iter_first(body, log, where):
             elif name == 'next' and arg == '':
                 end = pclose + 1
                 break
+            elif name == 'find_map' and arg:
+                # find_map(F) = map(F), then the first result that is not None, unwrapped again by the Option it already is
+                stages.append(('find_map', arg))
+                end = pclose + 1
+                break
             else:
                 break
             pos = pclose + 1
@@ -406,13 +414,19 @@ def rule_r9_iter_first(body, log, where):
                 nxt = '__x9_%d_%d' % (n9, j + 1)
                 code += 'let %s = %s; ' % (nxt, apply(arg, cur, False))
                 cur = nxt
+            elif name == 'find_map':
+                nxt = '__x9_%d_%d' % (n9, j + 1)
+                code += 'let %s = %s; if !(Option::is_none(&%s)) { %s = %s; break; } ' % (nxt, apply(arg, cur, False), nxt, r, nxt)
+                cur = None
             elif name == 'skip_while':
                 code += 'if !(%s) { ' % apply(arg, cur, True)
                 closers += '} '
             else:
                 code += 'if %s { ' % apply(arg, cur, True)
                 closers += '} '
-        code += '%s = Some(%s); break; ' % (r, cur) + closers
+        if cur is not None:
+            code += '%s = Some(%s); break; ' % (r, cur)
+        code += closers
         if rev:
             head = 'let mut %s: usize = %s.len(); let mut %s = None; while %s > 0 { %s -= 1; let __x9_%d_0 = &%s[%s]; ' % (k, x, r, k, k, n9, x, k)
         else:
@@ -422,6 +436,81 @@ def rule_r9_iter_first(body, log, where):
         body = body[:x_start] + new + body[end:]
         search_from = x_start + len(new)
     log.hit('R9.iter_first', n9, where)
+    return body
+
+
+def rule_r11_r12_zip_collect(body, log, where):
+    """R12: `for (A, B) in X.zip(Y) { S }`  ->  X and Y evaluated once, in that order, then an index loop over their common prefix
+            binding A, B to the k-th elements (std: Iterator::zip stops at the shorter side).
+       R11: `X.map(|a| F).collect::<Result<Vec<_>>>()?`  ->  X evaluated once, then an index loop that evaluates F for each element
+            in order, returns the first `Err` from the enclosing function and otherwise yields the Vec of the `Ok` values
+            (std: FromIterator for Result stops at the first error; `?` returns it).
+       X and Y are calls whose shims return the items as a Vec. Opt-in (`rules=R11` / `rules=R12`): Verus rejects closures that
+       capture `&mut` and has no zip adapter."""
+    n12 = 0
+    while True:
+        kind = rs.code_mask(body)
+        hit = None
+        for s_, e_, m in rs.find_code(body, kind, r'\bfor\s*\(\s*(\w+)\s*,\s*(\w+)\s*\)\s*in\s+', 0, len(body)):
+            hit = (s_, e_, m); break
+        if hit is None:
+            break
+        s_, e_, m = hit
+        # the iterated expression runs up to the `{` of the loop body at depth 0
+        j = e_
+        depth = 0
+        while j < len(body):
+            if kind[j] == 'c':
+                c = body[j]
+                if c in '([':
+                    depth += 1
+                elif c in ')]':
+                    depth -= 1
+                elif c == '{' and depth == 0:
+                    break
+            j += 1
+        expr = body[e_:j].strip()
+        mz = None
+        ek = rs.code_mask(expr)
+        for zs, ze, zm in rs.find_code(expr, ek, r'\.\s*zip\s*\(', 0, len(expr)):
+            zc = rs.match_close(expr, ek, ze - 1)
+            if expr[zc + 1:].strip() == '':
+                mz = (zs, ze, zc)
+        if mz is None:
+            raise Undecided('rule R12: unsupported tuple-pattern for loop in %s' % where)
+        x = expr[:mz[0]].strip()
+        y = expr[mz[1]:mz[2]].strip()
+        bclose = rs.match_close(body, kind, j)
+        inner = body[j + 1:bclose]
+        n12 += 1
+        a, b, k = '__z12a_%d' % n12, '__z12b_%d' % n12, '__k12_%d' % n12
+        new = ('{ let %s = %s; let %s = %s; let mut %s: usize = 0; while %s < %s.len() && %s < %s.len() { let %s = %s[%s]; let %s = %s[%s]; %s += 1; %s } }'
+               % (a, x, b, y, k, k, a, k, b, m.group(1), a, k, m.group(2), b, k, k, inner))
+        body = body[:s_] + new + body[bclose + 1:]
+    n11 = 0
+    while True:
+        kind = rs.code_mask(body)
+        hit = None
+        for s_, e_, m in rs.find_code(body, kind, r'\.\s*map\s*\(\s*\|\s*(\w+)\s*\|', 0, len(body)):
+            popen = body.index('(', s_)
+            pclose = rs.match_close(body, kind, popen)
+            mc = re.match(r'\s*\.\s*collect\s*::\s*<\s*Result\s*<\s*Vec\s*<\s*_\s*>\s*>\s*>\s*\(\s*\)\s*\?', body[pclose + 1:])
+            if mc:
+                hit = (s_, e_, m, pclose, pclose + 1 + mc.end()); break
+        if hit is None:
+            break
+        s_, e_, m, pclose, end = hit
+        f = body[e_:pclose].strip()
+        x_start = _receiver_start(body, kind, s_)
+        x = body[x_start:s_].strip()
+        n11 += 1
+        src, acc, k, e = '__c11s_%d' % n11, '__c11_%d' % n11, '__k11_%d' % n11, '__e11_%d' % n11
+        new = ('{ let %s = %s; let mut %s = Vec::new(); let mut %s: usize = 0; while %s < %s.len() { let %s = %s[%s]; %s += 1; let %s = %s; '
+               'match %s { Ok(__v11) => { %s.push(__v11); } Err(__err11) => { return Err(__err11); } } } %s }'
+               % (src, x, acc, k, k, src, m.group(1), src, k, k, e, f, e, acc, acc))
+        body = body[:x_start] + new + body[end:]
+    log.hit('R12.for_zip', n12, where)
+    log.hit('R11.map_collect_result', n11, where)
     return body
 
 
@@ -800,17 +889,27 @@ def apply_fn(d, log, fnmap, out_lineno):
         body = rule_r8_result_combinators(body, log, where)
     if 'R9' in d.opts.get('rules', ''):
         body = rule_r9_iter_first(body, log, where)
+    if 'R11' in d.opts.get('rules', '') or 'R12' in d.opts.get('rules', ''):
+        body = rule_r11_r12_zip_collect(body, log, where)
     if 'R4' not in d.norules:
         body = rule_r4_any_all(body, log, where)
     # collect insertions on the (rewritten) body, all computed against the same text
     bk = rs.code_mask(body)
     edits = []  # (start, end, text): insertion when start == end, else replacement
     for old, new, count in d.substs:
-        hits = [(m.start(), m.end()) for m in re.finditer(anchor_regex(old), body) if bk[m.start()] == 'c']
+        if isinstance(old, tuple):
+            # `subst-re`: a regular expression over the code text (whitespace in the pattern matches any whitespace), groups usable as \1.. in the replacement
+            old = old[1]
+            ms = [m for m in re.finditer(re.sub(r' +', r'\\s*', old), body) if bk[m.start()] == 'c']
+            hits = [(m.start(), m.end()) for m in ms]
+            news = [m.expand(new) for m in ms]
+        else:
+            hits = [(m.start(), m.end()) for m in re.finditer(anchor_regex(old), body) if bk[m.start()] == 'c']
+            news = [new] * len(hits)
         if count >= 0 and len(hits) != count:
             raise Undecided('lost anchor: subst "%s" in %s matches %d sites, expected %d' % (old, d.spec, len(hits), count))
-        for a, b in hits:
-            edits.append((a, b, new))
+        for (a, b), nw in zip(hits, news):
+            edits.append((a, b, nw))
         log.hit('R-local.subst', len(hits), '%s: "%s" => "%s"' % (where, old, new))
     loops = rs.find_loops(body, bk, 1, len(body) - 1)
     for n, (itname, lines) in d.loops.items():
@@ -1161,6 +1260,10 @@ def expand(template_path, out_path, extra_tail=''):
                         m = re.match(r'subst\s+"(.*)"\s*=>\s*"(.*)"(\s+count=(\d+|\*))?\s*$', c2)
                         d.substs.append((m.group(1), m.group(2), -1 if m.group(4) == '*' else int(m.group(4) or 1)))
                         cur = None
+                    elif c2.startswith('subst-re '):
+                        m = re.match(r'subst-re\s+"(.*)"\s*=>\s*"(.*)"(\s+count=(\d+|\*))?\s*$', c2)
+                        d.substs.append((('re', m.group(1)), m.group(2), -1 if m.group(4) == '*' else int(m.group(4) or 1)))
+                        cur = None
                     else:
                         raise SystemExit('bad directive in fn block: ' + s2)
                 else:
@@ -1349,6 +1452,10 @@ def trusted_scan(text):
             tail = text[m.start():m.start() + 400]
             mm = re.search(r'\b(fn|struct|enum|type)\s+(\w+)', tail)
             what = mm.group(0) if mm else ''
+            if name in ('assume', 'admit'):
+                # a statement inside a body: name the enclosing function (the last `fn` before it)
+                prev = [x for x in re.finditer(r'\bfn\s+(\w+)', text[:m.start()]) if kind[x.start()] == 'c']
+                what = ('in fn ' + prev[-1].group(1)) if prev else what
             if name == 'assume_specification':
                 mm = re.search(r'assume_specification\s*(<[^>]*>)?\s*\[\s*([^\]]+?)\s*\]', tail, re.S)
                 what = rs.norm_ws(mm.group(2)) if mm else what
